@@ -16,11 +16,11 @@ from .c10 import limit_parts
 
 PROP = "C16"
 THEOREMS = ["C16_reparse_condition", "C16_reparse_part_spec", "C16_reparse_path_spec", "C16_reparse_part_spec_list", "C16_reparse_rule_spec",
-            "C16_reparse_schema_spec_list", "C16_schema_rules_order", "C16_schema_sort_idempotent",
+            "C16_reparse_schema_spec_list", "C16_schema_rules_order", "C16_schema_sort_idempotent", "C16_reparse_condition_nested",
             "C16_parsed_condition_well_formed", "C16_parser_inventory", "C16_parsers_accepted", "C16_analysis_sound", "C16_parsers_leave_the_spec_alone",
             "C16_rejects_in_place_parser"]
 FACT_LEMMAS = ["C16_parsers_accepted is a closed computation on Gen/ParsersGen.v (abstraction of the ten parser bodies, regenerated from source)"]
-DEPENDS = ["Taint.v", "Gen/ParsersGen.v", "Proofs/TaintProof.v", "Properties/C16.v", "Proofs/C16ReparseProof.v", "Proofs/C16SchemaProof.v", "SchemaSpec.v", "RunReparse.v",
+DEPENDS = ["Taint.v", "Gen/ParsersGen.v", "Proofs/TaintProof.v", "Properties/C16.v", "Proofs/C16ReparseProof.v", "Proofs/C16SchemaProof.v", "SchemaSpec.v", "NestedArgs.v", "NestedIO.v", "RunNestedEq.v", "Proofs/C14NestedProof.v", "Proofs/C11NestedFullProof.v", "RunReparse.v",
            "Eq.v", "Proofs/C14Proof.v", "Proofs/C19Proof.v", "Proofs/PyFacts.v", "Proofs/C04Proof.v", "Py.v", "Lang.v", "Defs.v", "Rule.v", "RuleDefs.v", "Path.v", "Cast.v", "Str.v",
            "Cond.v", "Dsl.v", "Inst.v", "RunSpec.v", "SpecDefs.v", "Gen/TablesGen.v", "Gen/CallablesGen.v", "Gen/SpecGen.v", "Spec.v", "SpecIO.v"]
 SPEC_VO = ["Taint.vo"]
@@ -214,6 +214,28 @@ def run(tier, seed, model_ok, spec_ok, replay=None):
             check("schema", v.Schema.from_json_like, rs2, viol, dist, cases)
             check("schema", lambda sp: v.Schema(v.Schema.init_rules(sp)), rs3, viol, dist, cases)
     k_bad, o_bad, nk, no, err = run_passes("c16", IMPORTS, cases, model_ok, spec_ok)
+    # condition specs with NESTED path specs, parsed twice by the parser instance that keeps them (NestedIO.condn_from_spec)
+    from ..nestedgen import nested_tree, NESTED_IMPORTS
+    ncases = []
+    for _ in range(150 if tier == "quick" else 4000):
+        doc = g.document(3, 4)
+        t = nested_tree(g, pg, doc)
+        spec = sg.cond_spec(t)
+        if spec is None or len(repr(spec)) > 3000:
+            continue
+        check("condition(nested)", v.conditions.ConditionLike.from_spec, copy.deepcopy(spec), viol, dist)
+        o = E.run_outcome(lambda: bool(v.conditions.ConditionLike.from_spec(json_copy(spec)) == v.conditions.ConditionLike.from_spec(json_copy(spec))))
+        try:
+            model = f"(run_reparse_condn {E.enc_val(spec)})"
+            ncases.append(Case({"kind": "condition(nested)", "spec": repr(spec)[:300], "impl": o[0] + ":" + repr(o[1])[:100], "coq": model[:4000]},
+                               model, None, E.enc_res(o), o, o[0] == "ok", key=("nested", repr(spec)[:300])))
+        except E.Unencodable:
+            pass
+    nk_bad, _, nnk, _, nerr = run_passes("c16n", NESTED_IMPORTS, ncases, model_ok, False)
+    k_bad = k_bad + [len(cases) + i for i in nk_bad]
+    cases = cases + ncases
+    nk += nnk
+    err = err or nerr
     total = sum(dist.values())
     res = {"evaluations": total + len(cases), "k_cases": nk, "o_cases": total, "nontrivial": sum(c for k, c in dist.items() if k.endswith(":ok")),
            "rule": "well-formed condition specs (25% with data-path arguments, 20% with literal / escaped 'path' mappings), part "
